@@ -147,9 +147,10 @@ def case_strategy(draw, tier):
                     move.append([w, g])
         stp["new"], stp["move"] = new, move
         live = [w for w in range(nwells) if wgroup[w] is not None]
-        stp["wefac"] = [[w, draw(st.sampled_from(EFACS))] for w in live
+        stp["wefac"] = [[w, draw(st.sampled_from(EFACS)), draw(st.sampled_from(["", "", "YES", "NO"]))] for w in live
                         if draw(st.integers(0, 9)) < (5 if s == 0 else 2)]
-        stp["gefac"] = [[g, draw(st.sampled_from(EFACS))] for g in range(ngroups)
+        # third entry: GEFAC item 3 (transfer the factor to the extended network: no influence on any summary vector)
+        stp["gefac"] = [[g, draw(st.sampled_from(EFACS)), draw(st.sampled_from(["", "", "YES", "NO"]))] for g in range(ngroups)
                         if draw(st.integers(0, 9)) < (5 if s == 0 else 2)]
         status = []
         for w in live:
@@ -216,9 +217,9 @@ class Model:
                 parents[g] = p
             for w, g in stp["new"] + stp["move"]:
                 wgroup[w] = g
-            for w, f in stp["wefac"]:
+            for w, f, *_ in stp["wefac"]:
                 wef[w] = f
-            for g, f in stp["gefac"]:
+            for g, f, *_ in stp["gefac"]:
                 gef[g] = f
             for w, x in stp["status"]:
                 stat[w] = x
@@ -335,9 +336,9 @@ class Model:
                 if recs:
                     L += [name] + recs + ["/"]
             if stp["wefac"]:
-                L += ["WEFAC"] + [" '%s' %r /" % (self.wnames[w], f) for w, f in stp["wefac"]] + ["/"]
+                L += ["WEFAC"] + [" '%s' %r %s/" % (self.wnames[w], f, (x[0] + " ") if x and x[0] else "") for w, f, *x in stp["wefac"]] + ["/"]
             if stp["gefac"]:
-                L += ["GEFAC"] + [" '%s' %r /" % (self.gnames[g], f) for g, f in stp["gefac"]] + ["/"]
+                L += ["GEFAC"] + [" '%s' %r %s/" % (self.gnames[g], f, (x[0] + " ") if x and x[0] else "") for g, f, *x in stp["gefac"]] + ["/"]
             nxt = datetime.datetime(y, m, d) + datetime.timedelta(seconds=self.tsecs[si + 1])
             if stp["dates"] and cur.time() == datetime.time(0) and nxt.time() == datetime.time(0):
                 L += ["DATES", " %d '%s' %d /" % (nxt.day, MONTHS[nxt.month - 1], nxt.year), "/"]
@@ -640,6 +641,8 @@ class C09(Check):
                 changes += 1
         if changes:
             labels.append("efac-changes-later")
+        if any(len(x) > 2 and x[2] == "NO" for stp in case["steps"] for x in stp["gefac"]):
+            labels.append("gefac-transfer-NO")
         labels.append("nonunit-on-path:%d" % min(best, 4))
         nontriv = m.maxdepth >= 3 and best >= 2 and nonflow and has_inj
         if nontriv:
